@@ -387,12 +387,16 @@ func (m *Manager) manageStream(ctx context.Context, stream *drpcstream.Stream) {
 		m.log("CANCEL", stream.String)
 
 		if m.opts.SoftCancel {
-			// allow a new stream to begin.
-			drpcdebug.Event(m, "sem.rel", 0)
-			m.sem.Recv()
-
 			// attempt to send the soft cancel. if it fails or if the stream is
 			// busy sending something else, then we have to hard cancel.
+			//
+			// the semaphore is still held here: SendCancel and Cancel send this
+			// stream's fin token on m.sfin from this goroutine, which is also
+			// the only receiver of m.sfin. if the semaphore were released
+			// first, the next stream could be created as soon as this one is
+			// marked finished, be finished in turn by a packet from the
+			// remote, and fill m.sfin (capacity 1) before this stream's token
+			// is sent: this goroutine would then block forever in its own send.
 			if busy, err := stream.SendCancel(ctx.Err()); err != nil {
 				m.terminate(err)
 			} else if busy {
@@ -404,6 +408,11 @@ func (m *Manager) manageStream(ctx context.Context, stream *drpcstream.Stream) {
 			// wait for the stream to signal that it is finished.
 			<-m.sfin
 			drpcdebug.Event(m, "sfin.recv", stream.ID())
+
+			// allow a new stream to begin (it has to wait for this stream to
+			// be finished in any case: waitForPreviousStream).
+			drpcdebug.Event(m, "sem.rel", 0)
+			m.sem.Recv()
 		} else {
 			// If the stream isn't already finished, we have to terminate the
 			// transport to do an active cancel. If it is already finished,
